@@ -1,10 +1,17 @@
 package checks
 
 import (
+	"encoding/json"
 	"fmt"
+	"net/http/httptest"
+	"strings"
 	"testing"
 
+	textwire "github.com/textwire/textwire/v2"
+	"github.com/textwire/textwire/v2/config"
 	"verif/lib/harness"
+	"verif/lib/reftext"
+	"verif/lib/tree"
 )
 
 // C05/after-component: text that follows a directive of the template API (a
@@ -13,6 +20,13 @@ import (
 
 func init() {
 	registerTreeReplayer("C05/after-component")
+	harness.RegisterReplayer("C05/response-body", func(raw json.RawMessage) string {
+		cs, err := unJSON[treeCase](raw)
+		if err != nil {
+			return "bad case: " + err.Error()
+		}
+		return c05Response(harness.New(nopTB{}, "C05", "replay", ""), cs)
+	})
 }
 
 func TestC05_AfterComponent(t *testing.T) {
@@ -54,4 +68,73 @@ func TestC05_AfterComponent(t *testing.T) {
 		}
 	}
 	c.ExhaustivePart("2 component files x 133 runs x 6 followers x 4 spellings of the use (rotating)")
+}
+
+// TestC05_ResponseBody: the same bytes reach an http.ResponseWriter.
+func TestC05_ResponseBody(t *testing.T) {
+	c := harness.New(t, "C05", "response-body",
+		"every sequence of <= 3 pieces from {%, %d, %s, %v, %%, 100%;, %!, (MISSING), a letter, space, LF, CRLF, }}, {, backslash, é, @, -, an escaped {{, an escaped @if} written as the only page of a template directory and rendered with String and with Response (httptest recorder): both give the text the reference scanner expects (plain text unchanged, escapes without their backslash), the returned error is nil. Exhaustive. Non-trivial: contains a percent sign or an escape. Distinct by construction.")
+	defer c.Finish()
+	pieces := []string{"%", "%d", "%s", "%v", "%%", "100%;", "%!", "(MISSING)", "a", " ", "\n", "\r\n", "}}", "{", "\\", "é", "@", "-", "\\{{", "\\@if"}
+	idx := 0
+	var rec func(prefix string, depth int)
+	rec = func(prefix string, depth int) {
+		if prefix != "" {
+			idx++
+			if harness.Mine(idx) {
+				cls, wantOut := reftext.Classify(prefix)
+				if cls == reftext.Plain || cls == reftext.AllEscaped {
+					nt := strings.Contains(prefix, "%") || cls == reftext.AllEscaped
+					c.CaseEnum(nt, fmt.Sprintf("class:%d", cls))
+					cs := treeCase{Files: map[string]string{"page": prefix}, Dir: "t", Ext: ".tw", Page: "page", Want: want{St: "ok", Kind: "text", S: wantOut}}
+					if idx%211 == 0 {
+						c.Sample(cs.sample())
+					}
+					if f := c05Response(c, cs); f != "" {
+						c.Fail(t, kindOf(f), cs, cs.Want, f, f)
+					}
+				}
+			}
+		}
+		if depth == 3 {
+			return
+		}
+		for _, p := range pieces {
+			rec(prefix+p, depth+1)
+		}
+	}
+	rec("", 0)
+	c.ExhaustivePart("20 pieces, sequences of length 1..3 that are plain or fully escaped")
+}
+
+func c05Response(c *harness.Check, cs treeCase) string {
+	if _, err := tree.Materialise(cs.tree()); err != nil {
+		return ""
+	}
+	var failure string
+	pi := c.Guard("json", mustJSON(cs), func() {
+		textwire.VerifReset()
+		tpl, err := textwire.NewTemplate(&config.Config{TemplateDir: cs.Dir, TemplateExt: cs.Ext})
+		if err != nil {
+			failure = "unexpected load error: " + err.Error()
+			return
+		}
+		out, ferr := tpl.String(cs.Page, nil)
+		if ferr != nil || out != cs.Want.S {
+			failure = fmt.Sprintf("String renders %q / %v, expected %q", out, ferr, cs.Want.S)
+			return
+		}
+		w := httptest.NewRecorder()
+		if rerr := tpl.Response(w, cs.Page, nil); rerr != nil {
+			failure = "Response returned an error: " + rerr.Error()
+			return
+		}
+		if body := w.Body.String(); body != cs.Want.S {
+			failure = fmt.Sprintf("Response wrote %q, the text is %q", body, cs.Want.S)
+		}
+	})
+	if pi != nil {
+		return "panic: " + pi.Value
+	}
+	return failure
 }
